@@ -69,7 +69,7 @@ ObsF(o, qq) ==
 ---------------------------------------------------------------------------
 Ideal == IF kind = "bounded" THEN IdealB(q, cap, Ev) ELSE IdealF(q, first, Ev)
 KnownOp == IF kind = "bounded"
-             THEN Ev.ev \in {"push", "pop", "views", "clone", "get", "index", "get_mut", "index_mut",
+             THEN Ev.ev \in DrainIterOps \cup {"push", "pop", "views", "clone", "get", "index", "get_mut", "index_mut",
                              "drain", "iter_mut", "slices_mut", "extend"}
              ELSE Ev.ev \in {"push", "views", "clone", "get", "index", "get_mut", "index_mut",
                              "set_first", "iter_mut", "slices_mut", "extend"}
@@ -82,6 +82,7 @@ AcceptReset ==
              ELSE Ev.r.k = "panic"              \* documented: panics on invalid parts / empty data
 AcceptOp ==
   /\ kind # "none" /\ KnownOp
+  /\ (Ev.ev = "drain_step" => Ev.a.k >= 1)
   /\ Ev.r = Ideal.ret
   /\ IF kind = "bounded" THEN ObsB(Ev.o, Ideal.q, cap) ELSE ObsF(Ev.o, Ideal.q)
 
